@@ -40,6 +40,9 @@ RULE = ("import_graph: random object graphs of 1..14 objects (nested arrays/dict
         "a touched dictionary, a new pending stream linked in) — the specification applies the updates to the source graph and requires the "
         "reading steps to change nothing; filters: hex, a85, rle, lzw, flate, chains up to three, image codecs that stop the decode early "
         "(dct, jpx behind ascii filters); stream data is judged by raw bytes + filter chain, and by the decoded bytes as far as decodable; "
+        "tiling patterns in the resources of forms (operation sequence, entries, used resources of the copied pattern), marked content "
+        "with inline / referenced / named property lists and property lists that cannot be copied (import fails or the sequence is kept), "
+        "Indexed colour spaces with palettes below 100 bytes, streams with non-default /DecodeParms; "
         "non-trivial = at least two source objects reachable; distinct by (mode, file, selection, configuration, history)")
 CASE_TIMEOUT = 30.0
 MODEL_TIMEOUT = 120.0
@@ -617,6 +620,22 @@ def generate(rng, tier):
         hk = rng.choice(["none", "none", "render", "ops", "decode-all", "touch", "new-object"])
         yield page_case(rng, doc, sel, tags=["marked-content"] + (["malformed:" + kind] if kind in docs.MC_BAD_KINDS else []),
                         kind="malformed" if kind in docs.MC_BAD_KINDS else "structured", hist=rnd_page_history(rng, doc, sel, hk))
+
+
+    # Indexed colour spaces with palettes below 100 bytes (as a string / as an indirect stream; as an image's /ColorSpace and
+    # as a /ColorSpace resource of a form used by cs + scn): the same base, hival and palette bytes after the import, the
+    # palette a string or an indirect stream.  Streams whose /DecodeParms say something (PNG / TIFF predictor, EarlyChange 0,
+    # [null <<…>>] in a chain; images and forms): the copy's parameters say the same, entry by entry modulo Table 8 defaults.
+    for i in range(14 if quick else 280):
+        doc = docs.gen_doc(rng)
+        if i % 2 == 0:
+            docs.plant_indexed(doc, rng, docs.INDEXED_KINDS[(i // 2) % len(docs.INDEXED_KINDS)])
+        else:
+            docs.plant_parms(doc, rng, docs.PARMS_KINDS[(i // 2) % len(docs.PARMS_KINDS)])
+        k = len(doc.pages)
+        sel = list(range(k))
+        hk = rng.choice(["none", "none", "render-all", "images", "raw-images", "ops", "decode-all", "touch"])
+        yield page_case(rng, doc, sel, tags=["typed-values"], hist=rnd_page_history(rng, doc, sel, hk))
 
 
 # The typed PatternDict has no field for /Type and /PatternType and no catch-all: the copy of a tiling pattern lacks both
